@@ -82,6 +82,16 @@ fn check_issuer(alg: Alg, ops: &[IssueSpec], st: &mut Stats) -> Verdict {
                 _ => None,
             }
         };
+        // a user claim `cnf` together with a holder key: outside the domain in which the result of
+        // THIS call is specified (C01), but a legitimate earlier call of a history — only "no
+        // panic" is asserted for it, everything is asserted for the calls that follow
+        if expect_err.is_none() && spec.holder.is_some() && spec.claims.get("cnf").is_some() {
+            st.label("issuer:unasserted_op(cnf claim with holder key)");
+            if let Out::Panic(p) = sut::issue_with(&mut issuer, &spec) {
+                return Err(Failure::new(panic_sig("issue_sd_jwt", &p), format!("step {} panicked: {}", i + 1, p)));
+            }
+            continue;
+        }
         let out = sut::issue_with(&mut issuer, &spec);
         let ctx = |m: String| format!("step {} of {} on one issuer instance: {}\n  this step's arguments: {}", i + 1, ops.len(), m, sut::clip(&serde_json::to_string(&spec).unwrap(), 2000));
         match (expect_err, out) {
@@ -109,6 +119,9 @@ fn check_issuer(alg: Alg, ops: &[IssueSpec], st: &mut Stats) -> Verdict {
                 if let Some(p) = prev_ok {
                     if p.holder.is_some() && !spec.holder.is_some() {
                         st.label("issuer:key->no_key");
+                    }
+                    if p.holder != spec.holder && p.holder.enc().is_some() && p.holder.jwk_value().map(|j| j["x"].clone()) == spec.holder.jwk_value().map(|j| j["x"].clone()) {
+                        st.label("issuer:same_key_material_other_jwk_metadata");
                     }
                     if p.decoys && !spec.decoys {
                         st.label("issuer:decoys_on->off");
